@@ -622,6 +622,95 @@ func isTypedValueRecv(fl *ast.FieldList) bool {
 	return ok && id.Name == "TypedValue"
 }
 
+// fileFacts: what the translated methods do not cover — the constructor (a single `return &T{field: param, …}`: which
+// parameter initialises which field; fields not listed stay zero, so a new object starts with an empty cache), the
+// accessor KVStore() (a single `return t.kv`), and the list of all function declarations of the file (a new method shows up).
+func fileFacts(f *ast.File, ctorName string) (ctor []string, accessor string, decls []string, errs []string) {
+	for _, d := range f.Decls {
+		fd, ok := d.(*ast.FuncDecl)
+		if !ok {
+			continue
+		}
+		decls = append(decls, fd.Name.Name)
+		switch {
+		case fd.Recv == nil && fd.Name.Name == ctorName:
+			params := map[string]bool{}
+			for _, p := range fd.Type.Params.List {
+				for _, n := range p.Names {
+					params[n.Name] = true
+				}
+			}
+			bad := func() { errs = append(errs, ctorName+": body is not a single `return &T{field: parameter, …}`") }
+			if fd.Body == nil || len(fd.Body.List) != 1 {
+				bad()
+
+				continue
+			}
+			rs, ok := fd.Body.List[0].(*ast.ReturnStmt)
+			if !ok || len(rs.Results) != 1 {
+				bad()
+
+				continue
+			}
+			u, ok := rs.Results[0].(*ast.UnaryExpr)
+			if !ok || u.Op != token.AND {
+				bad()
+
+				continue
+			}
+			cl, ok := u.X.(*ast.CompositeLit)
+			if !ok {
+				bad()
+
+				continue
+			}
+			for _, e := range cl.Elts {
+				kv, ok := e.(*ast.KeyValueExpr)
+				if !ok {
+					bad()
+
+					break
+				}
+				k, ok1 := kv.Key.(*ast.Ident)
+				v, ok2 := kv.Value.(*ast.Ident)
+				if !ok1 || !ok2 || !params[v.Name] {
+					bad()
+
+					break
+				}
+				ctor = append(ctor, k.Name+"="+v.Name)
+			}
+		case fd.Recv != nil && fd.Name.Name == "KVStore":
+			if fd.Body != nil && len(fd.Body.List) == 1 {
+				if rs, ok := fd.Body.List[0].(*ast.ReturnStmt); ok && len(rs.Results) == 1 {
+					if s, ok := rs.Results[0].(*ast.SelectorExpr); ok {
+						if x, ok := s.X.(*ast.Ident); ok && len(fd.Recv.List) == 1 && len(fd.Recv.List[0].Names) == 1 && x.Name == fd.Recv.List[0].Names[0].Name {
+							accessor = s.Sel.Name
+
+							continue
+						}
+					}
+				}
+			}
+			errs = append(errs, "KVStore(): body is not a single `return t.<field>`")
+		}
+	}
+	if ctor == nil && len(errs) == 0 {
+		errs = append(errs, "constructor "+ctorName+" not found")
+	}
+
+	return ctor, accessor, decls, errs
+}
+
+func leanStrList(xs []string) string {
+	q := make([]string, len(xs))
+	for i, x := range xs {
+		q[i] = strconv.Quote(x)
+	}
+
+	return "[" + strings.Join(q, ", ") + "]"
+}
+
 func main() {
 	if len(os.Args) != 3 {
 		fmt.Fprintln(os.Stderr, "usage: xlate typedvalue.go OUT.lean")
@@ -668,6 +757,13 @@ func main() {
 		}
 		os.Exit(1)
 	}
+	ctor, accessor, decls, ferrs := fileFacts(f, "NewTypedValue")
+	if len(ferrs) > 0 {
+		for _, e := range ferrs {
+			fmt.Fprintln(os.Stderr, "xlate: "+e)
+		}
+		os.Exit(1)
+	}
 	var b strings.Builder
 	b.WriteString("import Hive.Model.TypedCode\n")
 	b.WriteString("/-! GENERATED by harness/c06/xlate from kvstore/typedvalue.go — method bodies of TypedValue as terms of\n`Hive.Typed.Code.Stmt`; do not edit. -/\n")
@@ -685,7 +781,10 @@ func main() {
 		os.Exit(1)
 	}
 	b.WriteString("def prog : Prog :=\n  { get := code_Get, has := code_Has, compute := code_Compute, set := code_Set, setParam := " + strconv.Itoa(setParam) +
-		", delete := code_Delete, cachedValue := code_cachedValue }\n\nend Hive.Gen.C06Code\n")
+		", delete := code_Delete, cachedValue := code_cachedValue }\n\n")
+	b.WriteString("/-- NewTypedValue: which parameter initialises which field (all other fields stay zero). -/\ndef ctor : List String := " + leanStrList(ctor) + "\n\n")
+	b.WriteString("/-- KVStore() returns this field. -/\ndef accessor : String := " + strconv.Quote(accessor) + "\n\n")
+	b.WriteString("/-- Every function declaration of typedvalue.go, in source order. -/\ndef decls : List String := " + leanStrList(decls) + "\n\nend Hive.Gen.C06Code\n")
 	if err := os.WriteFile(outPath, []byte(b.String()), 0o644); err != nil {
 		fmt.Fprintln(os.Stderr, err)
 		os.Exit(1)
